@@ -61,6 +61,30 @@ def resolve(scope, present):
     return None
 
 
+DEFAULT_USE = ("module", "plain", "direct")
+USE_FORMS = ["plain", "only-x", "only-other", "ONLY-other", "Only-x", "rename-away"]
+
+
+def used_visible(useform):
+    return useform[1] in ("plain", "only-x", "Only-x")
+
+
+def resolve_use(scope, present, useform):
+    """reference resolver when the USE of `usedm` stands at module level or in the referencing scope itself and
+    takes one of USE_FORMS: an ONLY list without the name / a rename of the name makes the used declaration invisible;
+    a USE in the referencing scope puts the name at the innermost level."""
+    present = set(present)
+    if not used_visible(useform):
+        present.discard("used")
+    if useform[0] == "module" or scope == "M":
+        return resolve(scope, present)
+    if "self" in present:
+        return "self"
+    if "used" in present:
+        return "used"
+    return resolve(scope, present - {"used"})
+
+
 def decl(kind, tag, name, as_iface=False):
     """(spec lines, contains lines) declaring `name` of `kind`, marked with `tag`."""
     if kind == "type":
@@ -100,19 +124,37 @@ def ind(lines, n=1):
     return ["  " * n + l for l in lines]
 
 
-def build(slot, scope, present, case, order):
+def use_line(useform, dname, rname):
+    form = useform[1]
+    return {"plain": "use usedm", "only-x": f"use usedm, only: {rname}", "Only-x": f"USE usedm, Only : {rname}",
+            "only-other": "use usedm, only: filler_u", "ONLY-other": "USE USEDM, ONLY: FILLER_U",
+            "rename-away": f"use usedm, hidden_x => {dname}"}[form]
+
+
+def build(slot, scope, present, case, order, useform=DEFAULT_USE):
     kind = SLOTS[slot][0]
     dname = {"lower": X, "mixed": "Xq", "refupper": X}[case]
     rname = {"lower": X, "mixed": X, "refupper": "XQ"}[case]
     files = {}
     # unrelated + used modules
     lib = []
+    reexport = useform[2] == "reexport"
     for mod, pl in (("otherm", "other"), ("usedm", "used")):
         s, c = decl(kind, pl, dname) if pl in present else ([], [])
         if slot == "constructor" and pl in present:
             s, c = [f"interface {dname}", f"  module procedure ctor_{pl}", "end interface"], [f"function ctor_{pl}(a_{pl})", f"  integer :: a_{pl}, ctor_{pl}", f"end function ctor_{pl}"]
-        lib += [f"module {mod}", "  implicit none"] + ind(s) + (["contains"] + ind(c) if c else []) + [f"end module {mod}", ""]
+        if mod == "usedm":
+            if reexport:
+                # the declaration lives in basem (own file); usedm only passes it on
+                base = ["module basem", "  implicit none"] + ind(s) + (["contains"] + ind(c) if c else []) + ["end module basem"]
+                files["src/y_base.f90"] = "\n".join(base) + "\n"
+                s, c = [], []
+            lib += ["module usedm"] + (["  use basem"] if reexport else []) + ["  implicit none", "  integer :: filler_u"] + ind(s) + (["contains"] + ind(c) if c else []) + ["end module usedm", ""]
+        else:
+            lib += [f"module {mod}", "  implicit none"] + ind(s) + (["contains"] + ind(c) if c else []) + [f"end module {mod}", ""]
     files["src/a_lib.f90"] = "\n".join(lib) + "\n"
+    uline = use_line(useform, dname, rname)
+    use_in_self = useform[0] == "self" and scope != "M"
     if "external" in present:
         files["src/z_ext.f90"] = "\n".join(decl(kind, "external", dname)[1]) + "\n"
     rs, rb = ref_lines(slot, rname)
@@ -139,7 +181,7 @@ def build(slot, scope, present, case, order):
         p_s, p_c = local("self")
     else:
         p_s, p_c = local("hostproc")
-    hp = ["subroutine hostp()"] + ind(p_s)
+    hp = ["subroutine hostp()"] + (ind([uline]) if use_in_self and scope == "P" else []) + ind(p_s)
     if scope == "P":
         hp += ind(rs) + ind(rb)
     inner = list(p_c)
@@ -152,13 +194,13 @@ def build(slot, scope, present, case, order):
         i_s, _ = local("self", as_iface=True)
         j_s, _ = local("sibling", as_iface=True)
         sibj = ["subroutine sibj()"] + ind(j_s) + ["end subroutine sibj"]
-        refi = ["subroutine refi()"] + ind(i_s) + ind(rs) + ind(rb) + ["end subroutine refi"]
+        refi = ["subroutine refi()"] + (ind([uline]) if use_in_self else []) + ind(i_s) + ind(rs) + ind(rb) + ["end subroutine refi"]
         inner += (sibj + refi) if order == "before" else (refi + sibj)
     if inner:
         hp += ["contains"] + ind(inner)
     hp += ["end subroutine hostp"]
     procs = (sibq + hp) if order == "before" else (hp + sibq)
-    src = ["module hostm", "  use usedm", "  implicit none"] + ind(m_spec) + ["contains"] + ind(m_cont) + ind(procs) + ["end module hostm"]
+    src = ["module hostm"] + ([] if use_in_self else ["  " + uline]) + ["  implicit none"] + ind(m_spec) + ["contains"] + ind(m_cont) + ind(procs) + ["end module hostm"]
     files["src/m_host.f90"] = "\n".join(src) + "\n"
     return files
 
@@ -377,19 +419,50 @@ def gen_main_cases(tier):
                             if order == "after" and not ({"sibling", "sibling2"} & set(present)) and tier != "thorough":
                                 continue
                             yield (slot, scope, present, case, order)
+                    # the USE statement that brings `used` in: other forms / in the referencing scope itself / re-exported
+                    if "used" not in present or slot == "constructor":
+                        continue
+                    for where in ("module", "self") if scope != "M" else ("module",):
+                        for form in USE_FORMS:
+                            for via in ("direct", "reexport"):
+                                uf = (where, form, via)
+                                if uf == DEFAULT_USE:
+                                    continue
+                                if where == "self" and "self" in present and used_visible(uf):
+                                    continue  # a use-associated name cannot be redeclared in the same scope
+                                if slot == "generic" and resolve_use(scope, present, uf) is None:
+                                    continue
+                                for case in ("lower", "refupper") if tier == "thorough" else ("lower",):
+                                    yield (slot, scope, present, case, "before", uf)
 
 
-def run_case(st: Stats, case):
-    slot, scope, present, cs, order = case
-    files = build(slot, scope, set(present), cs, order)
+def run_case(st: Stats, case, only_perm=None):
+    slot, scope, present, cs, order, *rest = case
+    useform = tuple(rest[0]) if rest else DEFAULT_USE
+    files = build(slot, scope, set(present), cs, order, useform)
+    names = sorted(files)
+    # the re-export chain makes the order in which modules are correlated matter: every file order
+    perms = [tuple(only_perm)] if only_perm else (list(itertools.permutations(names)) if useform[2] == "reexport" else [tuple(names)])
+    for perm in perms:
+        fordrun.FILE_ORDER = lambda fl, perm=perm: sorted(fl, key=lambda p: perm.index("src/" + p.name))
+        try:
+            _run_one(st, case, files, perm, useform)
+        finally:
+            fordrun.FILE_ORDER = None
+    st.nontrivial.add(core.digest([slot, scope, present, cs, order, useform]))
+
+
+def _run_one(st: Stats, case, files, perm, useform):
+    slot, scope, present, cs, order, *rest = case
     r = fordrun.build_fast(files, dict(display=["public", "private", "protected"], proc_internals=True))
     st.evaluations += 1
     st.transitions += 1
-    want = resolve(scope, present) or "unresolved"
-    stratum = f"{slot}/{scope}"
-    inp = dict(case=[slot, scope, list(present), cs, order], files=files)
+    want = resolve_use(scope, present, useform) or "unresolved"
+    stratum = f"{slot}/{scope}" + ("" if useform == DEFAULT_USE else "/use-forms")
+    inp = dict(case=[slot, scope, list(present), cs, order] + ([list(useform)] if rest else []), files=files, order=list(perm))
     invisible = sorted(set(present) - {want})
-    feats = dict(slot=slot, scope=scope, present=",".join(present), case=cs, order=order, expected=want)
+    feats = dict(slot=slot, scope=scope, present=",".join(present), case=cs, order=order, expected=want,
+                 use_where=useform[0], use_form=useform[1], use_via=useform[2], file_order=",".join(x[4] for x in perm))
     if r.error is not None or "ERROR in file" in r.log or "Error parsing" in r.log:
         st.violation("ford-failed", stratum, feats, inp, repr(r.error) + r.log[-300:], "parses and correlates")
         st.stratum(stratum, 1)
@@ -398,8 +471,7 @@ def run_case(st: Stats, case):
         got = observe(r.project, slot, scope)
     except Exception as e:  # noqa
         got = f"<observe failed: {type(e).__name__}: {e}>"
-    st.states.add(core.digest([slot, scope, present, got]))
-    st.nontrivial.add(core.digest([slot, scope, present, cs, order]))
+    st.states.add(core.digest([slot, scope, present, useform, got]))
     if got != want:
         feats.update(observed=got, leaked_from=got if got in invisible else "")
         clause = "resolved-to-invisible-declaration" if got in invisible and got not in ("unresolved",) else (
@@ -427,12 +499,12 @@ def replay(path):
 
     core.use_repo()
     rec = json.loads(open(path).read())
-    slot, scope, present, cs, order = rec["input"]["case"]
+    slot, scope, present, cs, order, *rest = rec["input"]["case"]
     st = Stats()
     if str(slot).startswith("sub:"):
         run_sub_case(st, (slot, scope, tuple(present), cs, order))
     else:
-        run_case(st, (slot, scope, tuple(present), cs, order))
+        run_case(st, (slot, scope, tuple(present), cs, order) + ((tuple(rest[0]),) if rest else ()), only_perm=rec["input"].get("order"))
     for f, t in rec["input"]["files"].items():
         print("-----", f)
         print(t)
@@ -458,7 +530,9 @@ def main(tier, replay_path=None):
         PROP, tier, "model_checking", total, t0,
         rule=("for each of 10 reference-slot kinds x referencing scope x every subset "
               + ("" if tier == "thorough" else "of size <= 3 ") +
-              "of the applicable declaration placements x 3 letter-case variants x sibling order; "
+              "of the applicable declaration placements x 3 letter-case variants x sibling order; where the used module declares the name: "
+              "x USE form {plain, only-x, Only-x, only-other, ONLY-other, rename-away} x USE at module level / in the referencing scope x declared directly / "
+              "re-exported from a third module (every file order); "
               "distinct_nontrivial = distinct cases; states = distinct (slot, scope, placements, resolved tag)"),
         assumptions=[
             "a name that is use-associated into a scope is not also declared there (illegal Fortran)",
